@@ -15,6 +15,7 @@ CONSTANTS MaxH,        \* heights 1..MaxH
 Heights == 1..(MaxH + 1)
 Views   == (0..MaxV) \cup {9}
 VC == INSTANCE ViewContexts
+RL == INSTANCE RuntimeLogic     \* the loops' decisions as pure functions, shared with Trace_RuntimeConf.tla
 P == VC!P
 NoHV == <<0, 0>>
 
@@ -34,7 +35,7 @@ VARIABLES reg,        \* context registry (ViewContexts state record)
           nsync       \* UpdateState calls made so far
 vars == <<reg, hv, cancelled, mainAlive, workerAlive, maxSync, syncSlot, elecSlot, timer, wpc, wspi, member, commits, rounds, proposals, nsync>>
 
-NoSpi == [kind |-> "-", ctx |-> NoHV, h |-> 0, first |-> FALSE]
+NoSpi == [kind |-> "-", ctx |-> NoHV, h |-> 0, first |-> FALSE, round |-> 0]   \* round: new-round callback still to be made when the call returns
 Older(a, b) == VC!Older(a, b)
 Live(p) == p \in P /\ reg.status[p] = "live"
 Done(p) == p \notin P \/ reg.status[p] # "live"          \* a context that is not live is done (cancelled)
@@ -48,12 +49,9 @@ Init == /\ reg = VC!InitS /\ hv = <<0, 0>> /\ cancelled = FALSE /\ mainAlive = T
 \* UpdateState(block of height b): rendezvous with the main loop (it must be alive and at its select)
 ApiUpdateState(b) ==
   /\ mainAlive /\ ~cancelled /\ nsync < MaxSyncs /\ nsync' = nsync + 1
-  /\ IF maxSync >= b THEN UNCHANGED <<reg, syncSlot, maxSync>>          \* already saw a newer one
-     ELSE LET target == <<b + 1, 0>>
-              r1 == VC!CancelR(reg, target).st
-              f  == VC!ForR(r1, target) IN
-          IF f.res # "ok" THEN reg' = r1 /\ UNCHANGED <<syncSlot, maxSync>>
-          ELSE reg' = f.st /\ syncSlot' = b /\ maxSync' = b
+  /\ LET d == RL!SyncDecision(maxSync, reg, b) IN
+     /\ reg' = d.reg
+     /\ IF d.res = "done" THEN syncSlot' = b /\ maxSync' = b ELSE UNCHANGED <<syncSlot, maxSync>>
   /\ UNCHANGED <<hv, cancelled, mainAlive, workerAlive, elecSlot, timer, wpc, wspi, member, commits, rounds, proposals>>
 
 Cancel == /\ ~cancelled /\ cancelled' = TRUE
@@ -62,17 +60,15 @@ Cancel == /\ ~cancelled /\ cancelled' = TRUE
 \* ---- main loop
 \* every iteration starts with GcOldContexts: CancelOlderThan(State.Height(), 0)
 MainGC == /\ mainAlive /\ hv[1] >= 1
-          /\ reg' = VC!CancelR(reg, <<hv[1], 0>>).st
+          /\ reg' = VC!CancelR(reg, RL!GcTarget(hv)).st
           /\ UNCHANGED <<hv, cancelled, mainAlive, workerAlive, maxSync, syncSlot, elecSlot, timer, wpc, wspi, member, commits, rounds, proposals, nsync>>
 
 \* the armed timer fires and the main loop takes the trigger
 MainElection ==
   /\ mainAlive /\ timer # NoHV
-  /\ LET target == <<timer[1], timer[2] + 1>>
-         r1 == VC!CancelR(reg, target).st
-         f  == VC!ForR(r1, target) IN
-     IF f.res # "ok" THEN reg' = r1 /\ UNCHANGED elecSlot
-     ELSE reg' = f.st /\ elecSlot' = timer
+  /\ LET d == RL!ElectionDecision(reg, timer) IN
+     /\ reg' = d.reg
+     /\ IF d.res = "done" THEN elecSlot' = timer ELSE UNCHANGED elecSlot
   /\ timer' = NoHV
   /\ UNCHANGED <<hv, cancelled, mainAlive, workerAlive, maxSync, syncSlot, wpc, wspi, member, commits, rounds, proposals, nsync>>
 
@@ -89,7 +85,7 @@ Idle == workerAlive /\ wpc = "idle"
 EnterSpi(kind, p, h, first, regNow) ==
   LET f == VC!ForR(regNow, p) IN
   IF f.res # "ok" THEN [ok |-> FALSE, reg |-> regNow, spi |-> NoSpi]
-  ELSE [ok |-> TRUE, reg |-> f.st, spi |-> [kind |-> kind, ctx |-> p, h |-> h, first |-> first]]
+  ELSE [ok |-> TRUE, reg |-> f.st, spi |-> [kind |-> kind, ctx |-> p, h |-> h, first |-> first, round |-> 0]]
 
 \* onNewConsensusRound(H, first): context of (H,0), height forward only, new term asks for the committee
 NewRound(H, first) ==
@@ -105,7 +101,7 @@ NewRound(H, first) ==
 WorkerSync ==
   /\ Idle /\ syncSlot # -1
   /\ syncSlot' = -1
-  /\ IF syncSlot >= hv[1] THEN NewRound(syncSlot + 1, FALSE)
+  /\ IF RL!WorkerSyncAccepts(syncSlot, hv) THEN NewRound(syncSlot + 1, FALSE)
      ELSE UNCHANGED <<reg, hv, timer, wpc, wspi, member, rounds>>
   /\ UNCHANGED <<cancelled, mainAlive, workerAlive, maxSync, elecSlot, commits, proposals, nsync>>
 
@@ -113,7 +109,7 @@ WorkerSync ==
 WorkerElection ==
   /\ Idle /\ elecSlot # NoHV
   /\ elecSlot' = NoHV
-  /\ IF elecSlot # hv \/ ~member \/ hv[2] >= MaxV THEN UNCHANGED <<reg, hv, timer, wpc, wspi>>
+  /\ IF ~RL!WorkerElectionCurrent(elecSlot, hv) \/ ~member \/ hv[2] >= MaxV THEN UNCHANGED <<reg, hv, timer, wpc, wspi>>
      ELSE /\ hv' = <<hv[1], hv[2] + 1>> /\ timer' = <<hv[1], hv[2] + 1>>
           /\ \/ UNCHANGED <<reg, wpc, wspi>>                                        \* not the leader: sends its vote
              \/ LET e == EnterSpi("propose", <<hv[1], hv[2] + 1>>, hv[1], FALSE, reg) IN   \* elected leader
@@ -141,16 +137,20 @@ LeaveSpi ==
      CASE s.kind = "committee" ->
             IF dead THEN /\ wpc' = "idle" /\ wspi' = NoSpi /\ rounds' = Append(rounds, s.h)
                          /\ UNCHANGED <<reg, hv, timer, member, commits, proposals>>
-            ELSE /\ member' = TRUE /\ timer' = <<s.h, 0>> /\ rounds' = Append(rounds, s.h)
+            ELSE /\ member' = TRUE /\ timer' = <<s.h, 0>>
                  /\ UNCHANGED <<hv, commits, proposals>>
-                 /\ \/ (wpc' = "idle" /\ wspi' = NoSpi /\ UNCHANGED reg)           \* not the first leader
+                 \* the term is constructed (and, for a first leader, asks for its block and proposes) BEFORE the
+                 \* new-round callback is made: workerloop.go onNewConsensusRound -> NewLeanHelixTerm -> startTerm
+                 /\ \/ (wpc' = "idle" /\ wspi' = NoSpi /\ rounds' = Append(rounds, s.h) /\ UNCHANGED reg)     \* not the first leader
                     \/ ((s.h = 1 \/ s.first) /\
                         LET e == EnterSpi("propose", <<s.h, 0>>, s.h, FALSE, reg) IN
-                        reg' = e.reg /\ (IF e.ok THEN wpc' = "spi" /\ wspi' = e.spi ELSE wpc' = "idle" /\ wspi' = NoSpi))
+                        reg' = e.reg /\ (IF e.ok THEN wpc' = "spi" /\ wspi' = [e.spi EXCEPT !.round = s.h] /\ UNCHANGED rounds
+                                                  ELSE wpc' = "idle" /\ wspi' = NoSpi /\ rounds' = Append(rounds, s.h)))
        [] s.kind = "propose" ->
             /\ wpc' = "idle" /\ wspi' = NoSpi
             /\ proposals' = IF dead THEN proposals ELSE proposals \cup {s.ctx}      \* ctx.Err() != nil: nothing is sent
-            /\ UNCHANGED <<reg, hv, timer, member, commits, rounds>>
+            /\ rounds' = IF s.round # 0 THEN Append(rounds, s.round) ELSE rounds
+            /\ UNCHANGED <<reg, hv, timer, member, commits>>
        [] s.kind = "validate" ->
             /\ wpc' = "idle" /\ wspi' = NoSpi
             /\ UNCHANGED <<reg, hv, timer, member, commits, rounds, proposals>>
